@@ -520,6 +520,15 @@ void fmc_wait_threads(void) {
   t->idle = 0;
 }
 
+// free enumeration of an input / program parameter: every value in [0,n) is explored at no cost
+int fmc_input(int n) {
+  if (!fmc_is_exploring || n < 2) return 0;
+  capture_pending(&T[me]);
+  unsigned mask = 0;
+  for (int k = 0; k < n && k < 16; k++) mask |= 1u << k;
+  return choose(K_INPUT, mask, 0, 0, 0);
+}
+
 void fmc_begin(void) {
   if (me != 0) fmc_finish(V_ENGINE, "fmc_begin not on thread 0");
   T[0].alive = 1;
